@@ -122,7 +122,10 @@ theorem prune_only_recorded (maxN : Nat) (s : PStore) (v n : Nat) :
     ∀ x ∈ prunedKeys ((pruneStream maxN s v).take n), ∃ e ∈ s.dead, e.1 < v ∧ x ∈ e.2 := by
   intro x hx
   have hx := prunedKeys_take_subset _ _ _ hx
-  simp only [pruneStream, prunedKeys_append, List.mem_append] at hx
+  simp only [pruneStream] at hx
+  split at hx
+  · simp [prunedKeys] at hx
+  simp only [prunedKeys_append, List.mem_append] at hx
   rcases hx with hx | hx
   · rcases prunedKeys_batches maxN _ [] x hx with h | ⟨e, he, hxe⟩
     · cases h
